@@ -118,6 +118,7 @@ type Stats struct {
 	ModelHits     int
 	Fallbacks     int
 	SolverKills   int
+	SchedDecisions int
 	PathWall      time.Duration
 	FallbackTime  time.Duration
 	MergeAborts   map[string]int
@@ -159,6 +160,7 @@ func (s *Stats) Merge(o *Stats) {
 	s.ModelHits += o.ModelHits
 	s.Fallbacks += o.Fallbacks
 	s.SolverKills += o.SolverKills
+	s.SchedDecisions += o.SchedDecisions
 	s.PathWall += o.PathWall
 	s.FallbackTime += o.FallbackTime
 	for k, v := range o.MergeAborts {
